@@ -312,6 +312,51 @@ def require_all_new_table(repo, run, rule):
         run.ok(rule, fi, '_require_all_new evaluated on %d rows' % rows, 'self included by default; any checked node that forbids new paths raises unless excepted')
 
 
+def require_all_new_shared_nodes(repo, run, rule):
+    """ComposedNode.ayns._require_all_new evaluated on a concrete tree in which ONE node object sits under two paths (a tagged YAML
+    anchor and its alias), with the traversal evaluated too: the check is per path - the node at a path that is not excepted raises
+    even when the same object was already seen, and passed, at an excepted path (a wholesale replacement excepts exactly the paths it
+    removed)"""
+    from ..fde import PathVal
+    fi = repo.func('ComposedNode.ayns._require_all_new')
+
+    def pv(x):
+        if isinstance(x, PathVal):
+            return x
+        if x is None:
+            return PathVal([], '')
+        return PathVal(list(x), '.'.join(map(str, x)))
+
+    def stub(name, recv, a, k):
+        if name == 'get_list_path':
+            return pv(a[0] if a else None)
+        raise Unsupported('call of ' + name)
+    bad = []
+    rows = 0
+    for shape in ('leaf', 'container'):
+        for exc, want in (([('p', 'a')], True), ([('p', 'b')], True), ([('p', 'a'), ('p', 'b')], shape == 'container'), (None, True), ([('p', 'a'), ('p', 'b'), ('p', 'a', 'x'), ('p', 'b', 'x')], False)):
+            leaf = node_obj('X', 'ConfigScalar', _allow_new=False, _implicit_allow_new=False)
+            if shape == 'leaf':
+                shared = leaf
+            else:
+                shared = node_obj('S', 'ConfigDict', _children={'x': leaf}, _allow_new=None, _implicit_allow_new=None)
+            me = node_obj('me', 'ConfigDict', _children={'a': shared, 'b': shared}, _allow_new=None, _implicit_allow_new=None)
+            f = FDE(repo, stubs={'get_list_path'}, stub=stub, max_depth=12)
+            f.constructors = {'NodePath': lambda *a, **k: pv(a[0] if a else None)}
+            r = fde_guard(lambda: f.call(fi, me, pv(['p']), 'reason', exceptions=None if exc is None else [pv(list(e)) for e in exc]))
+            rows += 1
+            if r.raised not in (None, 'ValueError'):
+                raise AnalysisError('%s: _require_all_new on a concrete tree raises %s' % (rule, r.raised))
+            if bool(r.raised) != want:
+                bad.append('one %s that forbids new paths sits under p.a and p.b, exceptions %s: %s, expected %s' % (
+                    '!notnew node' if shape == 'leaf' else 'mapping with a !notnew entry x', exc, 'ValueError' if r.raised else 'no error', 'ValueError naming the path that is not excepted' if want else 'no error'))
+    run.table(rule, rows, '_require_all_new with one node object under two paths x exceptions')
+    if bad:
+        run.violation(rule, fi, '_require_all_new: a node reachable under two paths', bad[0] + (' [%d rows]' % len(bad) if len(bad) > 1 else ''), witness=bad[:4])
+    else:
+        run.ok(rule, fi, 'the new-path check is made per path, also for node objects that occur more than once (%d rows)' % rows)
+
+
 def remove_node_table(repo, run, rule):
     """ComposedNode.ayns._remove_node evaluated against a lookup stand-in that follows get_node's contract (missing path: None
     only when incomplete=None was asked for, KeyError by default): missing -> None and nothing removed; existing -> the removal
@@ -1667,7 +1712,10 @@ def add_source_table(repo, run, rule):
                         return ['DOC', None]
                     f = FDE(repo, stubs={'read', 'default_safe_flag', 'default_filename'}, stub=stub)
                     f.externals = {'pathlib.Path': pathlib.Path}
-                    f.extcalls = {'yaml.parse': _parse, 'parse': _parse, 'open': _open, 'os.path.expanduser': lambda x: x}
+                    from .common import fs_extcalls
+                    f.extcalls = dict(fs_extcalls(isfile=lambda p_, oname=oname: oname == 'ok'), **{'yaml.parse': _parse, 'parse': _parse, 'open': _open})
+                    import os as _os
+                    f.externals['os.PathLike'] = _os.PathLike
                     src = pathlib.PurePosixPath('a.yaml') if as_path else 'a.yaml'
                     r = fde_guard(lambda: f.call(fi, b, src, raw_yaml=raw, filename=filename))
                     rows += 1
@@ -1698,6 +1746,41 @@ def add_source_table(repo, run, rule):
                         bad.append('%s: the stages are %r after a parse that yielded one document and one empty document' % (what, b.f.get('stages')))
                     elif b.f.get('_current_file') is not None:
                         bad.append('%s: the current file stays %r afterwards' % (what, b.f.get('_current_file')))
+    # the same source added again is another document sequence appended to the stages: (base, experiment, base) is a different history
+    # from (base, experiment) - the second `base` is the latest writer among equals
+    for raw, exists in ((True, False), (None, False), (None, True), (False, True)):
+        from .common import builder_obj, fs_extcalls
+        b = builder_obj(repo, stages=[], _current_file=None, _default_safe_flag=True)
+        n_parsed = []
+
+        def stub2(n, recv, a, k):
+            if n == 'read':
+                return 'CONTENT'
+            if n in ('default_safe_flag', 'default_filename'):
+                return Opaque('cm')
+            raise Unsupported('call of ' + n)
+
+        def _open2(name, mode='r', exists=exists, **open_options):
+            if exists:
+                return Obj('file', 'TextIO')
+            raise Raised('FileNotFoundError', None, {'errno': 2})
+
+        def _parse2(src, bld=None, n_parsed=n_parsed):
+            n_parsed.append(src)
+            return ['DOC%d' % len(n_parsed)]
+        rs = []
+        for again in range(2):
+            f = FDE(repo, stubs={'read', 'default_safe_flag', 'default_filename'}, stub=stub2)
+            import os as _os
+            f.externals = {'pathlib.Path': pathlib.Path, 'os.PathLike': _os.PathLike}
+            f.extcalls = dict(fs_extcalls(isfile=lambda p_, exists=exists: exists), **{'yaml.parse': _parse2, 'parse': _parse2, 'open': _open2})
+            rs.append(fde_guard(lambda: f.call(fi, b, 'a.yaml', raw_yaml=raw)))
+        rows += 1
+        what = 'the same %s added twice (raw_yaml=%r)' % ('file' if exists else 'text', raw)
+        if any(r_.raised for r_ in rs):
+            bad.append('%s: raises %s' % (what, [r_.raised for r_ in rs]))
+        elif b.f.get('stages') != ['DOC1', 'DOC2']:
+            bad.append('%s: the stages are %r, expected the documents of both additions [DOC1, DOC2] - a repeated source is the latest writer again' % (what, b.f.get('stages')))
     run.table(rule, rows, 'add_source over raw_yaml x outcome of opening the file x explicit filename')
     if bad:
         run.violation(rule, fi, 'source interpretation table', bad[0] + (' [%d rows]' % len(bad) if len(bad) > 1 else ''), witness=bad[:4])
@@ -2459,7 +2542,10 @@ def map_nodes_memo(repo, run, rule):
     for cached in (True, False):
         shared = node_obj('shared', 'ConfigNode')
         other = node_obj('single', 'ConfigNode')
-        me = node_obj('cont', 'ConfigDict', _children={'a': shared, 'b': other, 'c': shared})
+        # d / e: two different scalar nodes that hold equal values (`d: !force 1`, `e: 1`) - different nodes, each processed on its own
+        eq1 = node_obj('eq1', 'ConfigScalar', _fde_payload=1, _priority=1)
+        eq2 = node_obj('eq2', 'ConfigScalar', _fde_payload=1)
+        me = node_obj('cont', 'ConfigDict', _children={'a': shared, 'b': other, 'c': shared, 'd': eq1, 'e': eq2})
         log = []
 
         def mapper(path, child, log=log):
@@ -2489,6 +2575,8 @@ def map_nodes_memo(repo, run, rule):
             bad.append('%s: the node held under two names is processed %d times (the memo is filled under another key than the one it is looked up by)' % (what, maps.count('shared')))
         elif cached and (sets.get('a') is None or sets.get('a') != sets.get('c')):
             bad.append('%s: the two names of one node receive different results (%s / %s)' % (what, sets.get('a'), sets.get('c')))
+        elif maps.count('eq1') != 1 or maps.count('eq2') != 1 or sets.get('d') is None or sets.get('d') == sets.get('e'):
+            bad.append('%s with d / e two different scalar nodes holding equal values: processed %s, results %s / %s - nodes that compare equal are taken for one node (the second keeps / receives what belongs to the first: flags, priority, position)' % (what, [m_ for m_ in maps if m_.startswith('eq')], sets.get('d'), sets.get('e')))
         elif not cached and maps.count('shared') != 2:
             bad.append('%s: expected one call per name, got %s' % (what, maps))
     if bad:
